@@ -342,7 +342,7 @@ def validator_facts(repo):
     toks = []
     body = list(fn.body)
     pre = [ast.unparse(s) for s in body[:3]]
-    if pre != ["if isinstance(schema, _str_type):\n    schema = self._resolve_schema(schema)\n    if schema is None:\n        raise _SchemaRuleTypeError",
+    if pre != ["if isinstance(schema, _str_type):\n    definition = self._resolve_schema(schema)\n    if definition is None:\n        definition = self._resolve_rules_set(schema)\n    if definition is None:\n        raise _SchemaRuleTypeError\n    schema = definition",
                "schema = schema.copy()",
                "for field in schema:\n    schema[field] = self._resolve_rules_set(schema[field])\n    if schema[field] is None:\n        raise _SchemaRuleTypeError"]:
         raise TranslationError("F11", "__normalize_mapping", "prologue changed")
